@@ -49,6 +49,10 @@ func Tree(name string) fsmodel.Tree {
 		for i := 0; i < 140; i++ {
 			t = append(t, f(fmt.Sprintf("f%03d", i), 100+i, 1, t1+int64(i)))
 		}
+	case "fan400": // more entries than all internal queues together hold (128 + 128 + 64 + ...)
+		for i := 0; i < 400; i++ {
+			t = append(t, f(fmt.Sprintf("f%03d", i), 100+i, 1, t1+int64(i)))
+		}
 	case "v1": // view with every entry type the sender treats differently
 		t = fsmodel.Tree{f("a", 1, 3, t1), d("b", t1+5), f("b/c", 2, 40000, t1+7),
 			{Path: "h", Kind: fsmodel.File, Perm: 0644, Mtime: t1, Data: fsmodel.Content(1, 3), HL: 1},
